@@ -148,7 +148,14 @@ Section Capped.
       apply pres_bind; [apply cpres_stream_closed|intros ?]. apply pres_modify. intros p. apply LI; reflexivity.
     Qed.
     Lemma cpres_handle_closed : pres I handle_closed.
-    Proof. unfold handle_closed. apply pres_bind; [apply pres_get|intro p0]. destruct (p_stream_live p0); [apply cpres_close_stream|apply pres_ret]. Qed.
+    Proof.
+      unfold handle_closed.
+      apply pres_bind; [apply pres_modify; intros p; apply LI; reflexivity|intros ?].
+      apply pres_bind; [apply pres_get|intro p0].
+      apply pres_bind; [destruct (p_stream_live p0); [apply cpres_close_stream|apply pres_ret]|intros ?].
+      apply pres_bind; [apply pres_modify; intros p; apply LI; reflexivity|intros ?].
+      apply pres_emit; discriminate.
+    Qed.
     Lemma cpres_srv_send e : pres I (srv_send e).
     Proof.
       unfold srv_send. apply pres_bind; [apply pres_emit; discriminate|intros ?].
@@ -446,7 +453,8 @@ Section Capped.
       apply pres_bind; [apply pres_emit; discriminate|intros ?].
       apply pres_bind; [apply pres_modify; intros q; apply libinv_Capped; reflexivity|intros ?].
       apply handle_events_capped.
-    - apply pres_cstep_ok; [|exact Hp]. apply cpres_handle_closed, libinv_Capped.
+    - apply pres_cstep_ok; [|exact Hp]. cbn [proto_step].
+      apply pres_bind; [apply cpres_handle_closed, libinv_Capped|intros ?; apply resume_capped].
     - cbn [proto_step].
       assert (A : pres Capped (match p_slot p with
              | SlotHttp _ => http_app_send (c_http cfg) get_h put_h (stream_send cfg) m
